@@ -236,6 +236,18 @@ pub proof fn lemma_content_at<P: Prefix, T>(t: Seq<Node<P, T>>, live: ISet<int>,
     assert(live.contains(i) && live.contains(j));
 }
 
+/// a key stored in the map is stored at a live, valued node (unfolding of `content`)
+pub proof fn lemma_content_dom<P: Prefix, T>(t: Seq<Node<P, T>>, live: ISet<int>, k: Seq<bool>)
+    requires twf_live(t, live)
+    ensures
+        content(t, live).dom().contains(k) == has_key(t, live, k),
+        has_key(t, live, k) ==> {
+            let i = node_of(t, live, k);
+            stored(t, live, i) && kb(t, i) =~= k && content(t, live)[k] == (t[i].prefix, t[i].value.unwrap())
+        },
+{
+}
+
 // ---- direction classifiers (contracts of Table::get_direction / get_direction_for_insert) ----
 
 pub open spec fn next_bit(a: Seq<bool>, q: Seq<bool>) -> bool {
